@@ -93,6 +93,8 @@ fn params_for(len: usize) -> Vec<P> {
     v.push(P::U64(1));
     v.push(P::I128(-1));
     v.push(P::U128(2));
+    // beyond 64 bits: values whose low 64 bits are 0, 1 or small (truncation to a machine word must not show)
+    v.extend([P::I128(1 << 64), P::I128((1 << 64) + 1), P::I128(-((1i128 << 64) + 1)), P::U128((1u128 << 65) + 2), P::I128(-(1i128 << 64))]);
     v.extend([P::I64(100), P::I64(-100), P::I64(i64::MAX), P::I64(i64::MIN), P::I128(i128::MAX), P::I128(i128::MIN), P::U64(u64::MAX), P::U128(u128::MAX), P::U128(i128::MAX as u128)]);
     v
 }
